@@ -1,6 +1,12 @@
 package main
 
-import "strings"
+import (
+	"fmt"
+	"go/token"
+	"strings"
+
+	"golang.org/x/tools/go/ssa"
+)
 
 func init() {
 	register(&Property{
@@ -48,12 +54,12 @@ func c09(c *Ctx) {
 	rm := p.PlainCalls("litefs.OS.Remove")
 	maxTX := "ltx.ParseFilename(io/fs.DirEntry.Name(" + ents + "[@@]))#1"
 	c.GuardedPaths("retention/decision", er, rm, [][]*Guard{
-		{GP("(@@ == (builtin.len("+ents+") - 1))", false), GP("((builtin.len("+ents+") - 1) == @@)", false)},
 		{GP("(nil == p0.store.BackupClient)", true), GP("("+maxTX+" < litefs.(*DB).HWM(p0))", true)},
 		{GP("time.(Time).Before(io/fs.FileInfo.ModTime(io/fs.DirEntry.Info("+ents+"[@@])#0), p2)", true)},
 		{GP("(ltx.ParseFilename(io/fs.DirEntry.Name("+ents+"[@@]))#2 == nil)", true)},
-	}, 1, "a file is removed only if it is not the last (newest) entry, is older than the retention cut-off, parses as a transaction file and - when a backup client is configured - its max TXID is below the high-water mark",
+	}, 1, "a file is removed only if it is older than the retention cut-off, parses as a transaction file and - when a backup client is configured - its max TXID is below the high-water mark",
 		"retention never removes the newest file and never removes a file the backup service has not yet confirmed; '<=' for '<' on the HWM deletes the file the backup may still need as the base of the next upload")
+	c.retentionLatest(er, rm)
 	c.ExpectAll("retention/removed-file", c.CallArgs(er, rm, 2), pat("path/filepath.Join([litefs.(*DB).LTXDir(p0), io/fs.DirEntry.Name("+ents+"[@@])])"), 1, "the file removed is the entry examined, inside the LTX directory", "")
 	c.Before("retention/hwm-read-once", er, p.PlainCalls("litefs.(*DB).ReadLTXDir"), p.PlainCalls("litefs.(*DB).HWM"), 1, "the high-water mark is read once before the listing", "a mark read after listing could already cover files uploaded later than the listing was taken (benign) - reading it per file is the only unsafe variant: keep the single read")
 	c.OnlyInScope("retention/ltx-removers", []string{"litefs"}, func(in ssaInstr) bool {
@@ -117,4 +123,178 @@ func (c *Ctx) hwmFamily(prefix string) {
 			c.Expect(prefix+"/primary-sends-own", f["Name"]+" | "+f["TXID"], pat("litefs.(*DB).Name(p3) | litefs.(*DB).HWM(p3)"), "the primary streams its own current mark for the same database", "")
 		}
 	}
+}
+
+// retentionLatest decides, by value identity on go/ssa, (1) that EnforceRetention
+// removes a file only on the false edge of "index == latest", and (2) that
+// "latest" is (re)assigned the current index only when none is selected yet,
+// or the entry's max TXID is higher, or the max TXID is equal and its min TXID
+// is lower. Names sort by min TXID, so the last directory entry is not the
+// latest while a snapshot sits next to the files it replaces.
+func (c *Ctx) retentionLatest(er string, rm IM) {
+	p := c.P
+	rule := "K2 Guarded (value identity on go/ssa)"
+	d1 := "a file is removed only when its index differs from the entry selected as latest"
+	d2 := "the latest entry is (re)selected only when none is selected yet, or its max TXID is higher, or the max TXID is equal and its min TXID is lower"
+	why := "retention never removes the newest file: protecting the last directory entry protects a stale file while a snapshot is being published, and the snapshot itself is swept"
+	fn := c.F(er)
+	if !c.need("retention/not-latest", rule, d1, fn, er) {
+		return
+	}
+	isParse := func(v ssa.Value, idx int) bool {
+		e, ok := v.(*ssa.Extract)
+		if !ok || e.Index != idx {
+			return false
+		}
+		call, ok := e.Tuple.(*ssa.Call)
+		return ok && p.CalleeName(&call.Call) == "ltx.ParseFilename"
+	}
+	var latest, latestMax, latestMin *ssa.Phi
+	var upd []*ssa.BasicBlock
+	for _, b := range fn.Blocks {
+		for _, in := range b.Instrs {
+			phi, ok := in.(*ssa.Phi)
+			if !ok {
+				continue
+			}
+			hasM1, hasIdx, hasMax, hasMin := false, false, false, false
+			for _, e := range phi.Edges {
+				if k, ok := e.(*ssa.Const); ok && k.Value != nil && k.Value.ExactString() == "-1" {
+					hasM1 = true
+				}
+				if bo, ok := e.(*ssa.BinOp); ok && bo.Op == token.ADD {
+					hasIdx = true
+				}
+				hasMax = hasMax || isParse(e, 1)
+				hasMin = hasMin || isParse(e, 0)
+			}
+			switch {
+			case hasM1 && hasIdx && latest == nil:
+				latest = phi
+				for i, e := range phi.Edges {
+					if bo, ok := e.(*ssa.BinOp); ok && bo.Op == token.ADD {
+						upd = append(upd, b.Preds[i])
+					}
+				}
+			case hasMax && latestMax == nil:
+				latestMax = phi
+			case hasMin && latestMin == nil:
+				latestMin = phi
+			}
+		}
+	}
+	if latest == nil || latestMax == nil || latestMin == nil || len(upd) == 0 {
+		c.fail("retention/not-latest", rule, d1, why, "no selection of a latest entry (index, max TXID, min TXID carried through a loop) found in EnforceRetention", 0)
+		return
+	}
+	// classify the conditions
+	type edge = Edge
+	var c1T, c2T, c3T, c4T []edge
+	protectConds := map[ssa.Value]bool{}
+	isM1 := func(v ssa.Value) bool {
+		k, ok := v.(*ssa.Const)
+		return ok && k.Value != nil && k.Value.ExactString() == "-1"
+	}
+	for _, b := range fn.Blocks {
+		if len(b.Instrs) == 0 {
+			continue
+		}
+		iff, ok := b.Instrs[len(b.Instrs)-1].(*ssa.If)
+		if !ok {
+			continue
+		}
+		bo, ok := iff.Cond.(*ssa.BinOp)
+		if !ok {
+			continue
+		}
+		X, Y := bo.X, bo.Y
+		pair := func(a, b2 func(ssa.Value) bool) bool { return (a(X) && b2(Y)) || (a(Y) && b2(X)) }
+		isLatest := func(v ssa.Value) bool { return v == ssa.Value(latest) }
+		isLMax := func(v ssa.Value) bool { return v == ssa.Value(latestMax) }
+		isLMin := func(v ssa.Value) bool { return v == ssa.Value(latestMin) }
+		isIdx := func(v ssa.Value) bool { b3, ok := v.(*ssa.BinOp); return ok && b3.Op == token.ADD }
+		curMax := func(v ssa.Value) bool { return isParse(v, 1) }
+		curMin := func(v ssa.Value) bool { return isParse(v, 0) }
+		T, F := edge{b, 0}, edge{b, 1}
+		switch bo.Op {
+		case token.EQL, token.NEQ:
+			if bo.Op == token.NEQ {
+				T, F = F, T
+			}
+			switch {
+			case pair(isLatest, isM1):
+				c1T = append(c1T, T)
+			case pair(isLatest, isIdx):
+				protectConds[bo] = true
+			case pair(curMax, isLMax):
+				c3T = append(c3T, T)
+			}
+		case token.LSS, token.GTR:
+			lo, hi := X, Y // lo < hi
+			if bo.Op == token.GTR {
+				lo, hi = Y, X
+			}
+			if isLMax(lo) && curMax(hi) {
+				c2T = append(c2T, T)
+			}
+			if curMin(lo) && isLMin(hi) {
+				c4T = append(c4T, T)
+			}
+		}
+	}
+	blockOf := func(sets ...[]edge) func(Edge) bool {
+		m := map[edge]bool{}
+		for _, s := range sets {
+			for _, e := range s {
+				m[e] = true
+			}
+		}
+		return func(e Edge) bool { return m[e] }
+	}
+	if len(protectConds) == 0 {
+		c.fail("retention/not-latest", rule, d1, why, "no comparison of the loop index with the selected latest entry", 0)
+	} else {
+		// path enumeration: the outcome of the test feeds a flag (phi), so plain reachability cannot decide it
+		bad, n := "", 0
+		_, over := p.EnumPaths(fn, rm, 20000, func(facts []PathFact, trace []*ssa.BasicBlock, at ssa.Instruction) {
+			n++
+			for _, f := range facts {
+				if protectConds[f.v] && !f.Val {
+					return
+				}
+			}
+			if bad == "" {
+				bad = "removal at " + c.where(at) + " reachable on a feasible path on which 'index == latest' was not found false; path " + p.TraceString(trace)
+			}
+		})
+		switch {
+		case over:
+			c.undecided("retention/not-latest", rule, d1, "more than 20000 paths")
+		case bad != "":
+			c.fail("retention/not-latest", rule, d1, why, bad, n)
+		case n == 0:
+			c.fail("retention/not-latest", rule, d1, why, "no feasible path reaches the removal", 0)
+		default:
+			c.ok("retention/not-latest", rule, d1, n)
+		}
+	}
+	isUpd := func(in ssa.Instruction) bool {
+		for _, b := range upd {
+			if in.Block() == b && in == b.Instrs[len(b.Instrs)-1] {
+				return true
+			}
+		}
+		return false
+	}
+	if len(c1T) == 0 || len(c2T) == 0 || len(c3T) == 0 || len(c4T) == 0 {
+		c.fail("retention/latest-selection", rule, d2, why, fmt.Sprintf("selection conditions found: none-yet=%d higher-max=%d equal-max=%d lower-min=%d (each must be present)", len(c1T), len(c2T), len(c3T), len(c4T)), 0)
+		return
+	}
+	for _, alt := range [][]edge{c3T, c4T} {
+		if f := (&Search{P: p, Fn: fn, Block: blockOf(c1T, c2T, alt), Tgt: isUpd}).Run(); f != nil {
+			c.fail("retention/latest-selection", rule, d2, why, "the latest entry is re-selected on a path that establishes none of the three conditions; path "+p.TraceString(f.Trace), 1)
+			return
+		}
+	}
+	c.ok("retention/latest-selection", rule, d2, 4)
 }
